@@ -242,7 +242,7 @@ type seqRandom struct {
 
 func (u *seqRandom) New() Inst {
 	probe := []int{}
-	for v := 1; v <= u.nval; v++ {
+	for v := 0; v < u.nval; v++ {
 		probe = append(probe, v)
 	}
 	probe = append(probe, 99)
@@ -276,6 +276,15 @@ func hostileIndex(r *rand.Rand, n int) int {
 	return r.Intn(n)
 }
 
+// values 0..nval-1
+func randVals0(r *rand.Rand, nval, maxLen int) []int {
+	vs := randVals(r, nval, maxLen)
+	for i := range vs {
+		vs[i]--
+	}
+	return vs
+}
+
 func randVals(r *rand.Rand, nval, maxLen int) []int {
 	k := r.Intn(maxLen + 1)
 	vs := make([]int, k)
@@ -299,11 +308,11 @@ func (u *seqRandom) Rand(x Inst, r *rand.Rand) Call {
 			ops = append(ops, "Append", "Prepend")
 		}
 		op := ops[r.Intn(len(ops))]
-		return Call{Op: op, I: hostileIndex(r, n), Vs: randVals(r, u.nval, 4)}
+		return Call{Op: op, I: hostileIndex(r, n), Vs: randVals0(r, u.nval, 4)}
 	case p < 9:
 		return Call{Op: "Remove", I: hostileIndex(r, n)}
 	case p < 11:
-		return Call{Op: "Set", I: hostileIndex(r, n), V: 1 + r.Intn(u.nval)}
+		return Call{Op: "Set", I: hostileIndex(r, n), V: r.Intn(u.nval)}
 	case p < 13:
 		return Call{Op: "Swap", I: hostileIndex(r, n), J: hostileIndex(r, n)}
 	case p < 14:
@@ -314,9 +323,9 @@ func (u *seqRandom) Rand(x Inst, r *rand.Rand) Call {
 		}
 		return Call{Op: "Get", I: hostileIndex(r, n)}
 	case p < 17:
-		return Call{Op: "Contains", Vs: randVals(r, u.nval+1, 3)}
+		return Call{Op: "Contains", Vs: randVals0(r, u.nval+1, 3)}
 	case p < 18:
-		return Call{Op: "IndexOf", V: 1 + r.Intn(u.nval+1)}
+		return Call{Op: "IndexOf", V: r.Intn(u.nval + 1)}
 	default:
 		return Call{Op: []string{"Size", "Empty", "Values", "String"}[r.Intn(4)]}
 	}
@@ -452,7 +461,7 @@ func (u *queUniverse) Calls(x Inst) []Call {
 		put, take = "Push", "Pop"
 	}
 	var cs []Call
-	for v := 1; v <= u.nval; v++ {
+	for v := 0; v < u.nval; v++ { // 0 is the Go zero value, also returned by Pop / Peek on an empty container
 		cs = append(cs, Call{Op: put, V: v})
 	}
 	cs = append(cs, Call{Op: take}, Call{Op: "Peek"}, Call{Op: "Clear"}, Call{Op: "Size"}, Call{Op: "Empty"},
@@ -484,7 +493,7 @@ func (u *queRandom) Rand(x Inst, r *rand.Rand) Call {
 	switch {
 	case p < lim:
 		u.ctr++
-		return Call{Op: put, V: u.ctr%1000 + 1}
+		return Call{Op: put, V: u.ctr % 1000}
 	case p < 15:
 		return Call{Op: take}
 	case p < 17:
